@@ -40,11 +40,12 @@ Pieces(b, cuts, a, x1, pad) ==
 EncOk(r) == /\ r.cuts \in CutsFor(r.body)
             /\ (r.body = <<>> => r.x1 = 1)
             /\ (r.pad = 2 => Len(r.body) > MaxBody)      \* upper case only matters for sizes >= 10
+            /\ (Len(r.body) > MaxBody => r.x1 <= 3 /\ r.x2 = 1 /\ r.tr = 1)   \* the long bodies are there for the size digits
 Enc(r) == Encode(Pieces(r.body, r.cuts, 1, r.x1, r.pad), [hex |-> Zeros(IF r.pad = 1 THEN 2 ELSE 1), ext |-> Exts[r.x2]], Trailers[r.tr])
 StrDomain == UNION {[1..k -> Alpha2] : k \in 0..MaxStr}
 
 \* sixteen parent states share the domain so that the laws are evaluated by all workers
-NParts == 16
+NParts == 32
 RECURSIVE SumSeq(_)
 SumSeq(q) == IF q = <<>> THEN 0 ELSE Head(q) + SumSeq(Tail(q))
 Part(d) == IF Family = "enc" THEN (d.x1 + 3 * d.x2 + 5 * d.tr + 7 * Len(d.body) + d.pad) % NParts ELSE (SumSeq(d) + Len(d)) % NParts
